@@ -66,7 +66,8 @@ func bitLoopsIn(sc Scope) []bitLoop {
 			if k, isk := constInt(q.Y); !isk || k != 8 {
 				continue
 			}
-			phi, ok := q.X.(*ssa.Phi)
+			// the bit number: the loop variable, possibly handed to a helper / closure as an argument
+			phi, ok := sc.S.resolve(q.X).(*ssa.Phi)
 			if !ok || len(phi.Edges) != 2 {
 				continue
 			}
@@ -85,7 +86,7 @@ func bitLoopsIn(sc Scope) []bitLoop {
 			}
 			one, is1 := constInt(sh.X)
 			rem, ok := sh.Y.(*ssa.BinOp)
-			if !ok || !is1 || one != 1 || rem.Op != token.REM || rem.X != ssa.Value(phi) {
+			if !ok || !is1 || one != 1 || rem.Op != token.REM || sc.S.resolve(rem.X) != ssa.Value(phi) {
 				continue
 			}
 			if k, isk := constInt(rem.Y); !isk || k != 8 {
@@ -125,7 +126,7 @@ func bitLoopsIn(sc Scope) []bitLoop {
 					if cmp, ok := ifi.Cond.(*ssa.BinOp); ok && cmp.Op == token.LSS && cmp.X == inc && phi.Block().Succs[0] == phi.Block() {
 						cand := cmp.Y
 						pre := false
-						for _, br := range branches(fn) {
+						for _, br := range branches(phi.Block().Parent()) {
 							if br.True != phi.Block() || br.Cond.Op != token.LSS || br.Cond.Y != cand {
 								continue
 							}
@@ -379,8 +380,23 @@ func ruleK1(c *Ctx, id string) {
 			continue
 		}
 		R.Analysed[FuncName(f)] = true
-		prev, field, ok := accessorForm(f)
-		R.Check(ok && prev == w.prev && field == w.field, id, "super."+w.fn+"|chain link", P.Pos(f.Pos()), fmt.Sprintf("%s() = %s + %s", w.fn, orNone(w.prev), w.field), "matches", fmt.Sprintf("found %s + %s (recognised=%v): regions overlap or leave a gap for every disk size", orNone(prev), field, ok))
+		// what the accessor computes, in normal form (helpers inlined, + sorted)
+		wantSym := "field(recv." + w.field + ")"
+		if w.prev != "" {
+			wantSym = "(+ call:" + w.prev + "(recv) field(recv." + w.field + "))"
+		}
+		got, n := "", 0
+		okAll := true
+		for _, b := range f.Blocks {
+			if r, isR := b.Instrs[len(b.Instrs)-1].(*ssa.Return); isR && len(r.Results) == 1 {
+				n++
+				got = symOf(f, r.Results[0])
+				if got != wantSym {
+					okAll = false
+				}
+			}
+		}
+		R.Check(okAll && n > 0, id, "super."+w.fn+"|chain link", P.Pos(f.Pos()), fmt.Sprintf("%s() = %s + %s", w.fn, orNone(w.prev), w.field), "matches", fmt.Sprintf("computes %s: regions overlap or leave a gap for every disk size", got))
 	}
 	// MkFsSuper: nLog = LOGSIZE, Maxaddr = Size = d.Size(), NInodeBitmap = NINODEBITMAP
 	mk := c.fn(id, "super.MkFsSuper")
@@ -394,13 +410,21 @@ func ruleK1(c *Ctx, id string) {
 			stores[w.Field] = w.Val
 		}
 	}
+	noRecv := &symCtx{}
 	isSize := func(v ssa.Value) bool {
-		cl, ok := stripConv(v).(*ssa.Call)
-		return ok && cl.Call.IsInvoke() && cl.Call.Method.Name() == "Size" && isDiskIface(cl.Call.Value.Type())
+		if v == nil {
+			return false
+		}
+		return strings.HasPrefix(sym(noRecv, v, Subst{}, 0), "invoke:Size(")
 	}
 	R.Check(isSize(stores["Maxaddr"]) && isSize(stores["Size"]), id, "super.MkFsSuper|Maxaddr = Size = disk size", P.Pos(mk.Pos()), "the data region ends at the disk size", "both fields are d.Size()", "the file system believes the disk is larger or smaller than it is")
 	logsize := constOfPkg(P, jrnlPath+"/common", "LOGSIZE")
-	k, isk := constInt(stores["nLog"])
+	k, isk := int64(-1), false
+	if v := stores["nLog"]; v != nil {
+		if _, err := fmt.Sscanf(sym(noRecv, v, Subst{}, 0), "%d", &k); err == nil {
+			isk = true
+		}
+	}
 	R.Check(isk && k == logsize, id, "super.MkFsSuper|nLog = LOGSIZE", P.Pos(mk.Pos()), fmt.Sprintf("the bitmap starts right after the journal's %d blocks", logsize), "constant", fmt.Sprintf("nLog=%d, LOGSIZE=%d: the bitmap overlaps the journal or leaves a hole", k, logsize))
 }
 
@@ -472,33 +496,24 @@ func ruleK2(c *Ctx, id string) {
 	}
 	ia := c.fn(id, "super.(*FsSuper).Inum2Addr")
 	if ia != nil {
-		var quoK, remK, mulK int64 = -1, -1, 1
-		usesInodeStart := false
+		// normal forms of the two arguments of addr.MkAddr
+		wantBlk := fmt.Sprintf("(+ (/ param:inum %d) call:InodeStart(recv))", inodeblk)
+		wantOff := fmt.Sprintf("(* %d (%% param:inum %d))", inodesz*8, inodeblk)
+		gotBlk, gotOff := "", ""
 		for _, b := range ia.Blocks {
 			for _, in := range b.Instrs {
-				if bo, ok := in.(*ssa.BinOp); ok {
-					k, isk := constInt(bo.Y)
-					switch bo.Op {
-					case token.QUO:
-						if isk {
-							quoK = k
-						}
-					case token.REM:
-						if isk {
-							remK = k
-						}
-					case token.MUL:
-						if isk {
-							mulK *= k
-						}
-					}
-				}
-				if cal := staticCallee(in); cal != nil && cal.Name() == "InodeStart" {
-					usesInodeStart = true
+				if cal := staticCallee(in); cal != nil && cal.Name() == "MkAddr" {
+					cc := callCommon(in)
+					gotBlk, gotOff = symOf(ia, cc.Args[0]), symOf(ia, cc.Args[1])
 				}
 			}
 		}
-		R.Check(quoK == inodeblk && remK == inodeblk && mulK == inodesz*8 && usesInodeStart, id, "super.Inum2Addr layout", P.Pos(ia.Pos()), "inode i lives in block InodeStart + i/INODEBLK at bit offset (i%INODEBLK)*INODESZ*8", "constants agree", fmt.Sprintf("found /%d %%%d *%d InodeStart=%v", quoK, remK, mulK, usesInodeStart))
+		// the inode number parameter may have any name
+		if len(ia.Params) > 1 {
+			gotBlk = strings.ReplaceAll(gotBlk, "param:"+ia.Params[1].Name(), "param:inum")
+			gotOff = strings.ReplaceAll(gotOff, "param:"+ia.Params[1].Name(), "param:inum")
+		}
+		R.Check(gotBlk == wantBlk && gotOff == wantOff, id, "super.Inum2Addr layout", P.Pos(ia.Pos()), "inode i lives in block InodeStart + i/INODEBLK at bit offset (i%INODEBLK)*INODESZ*8", "normal forms agree", fmt.Sprintf("computes block %s, offset %s", gotBlk, gotOff))
 	}
 }
 
@@ -595,16 +610,40 @@ func ruleK3(c *Ctx, id string) {
 	// reserved inodes: blk2[0] |= 1<<0 ; 1<<1, written at BitmapInodeStart
 	nullinum := constOfPkg(P, jrnlPath+"/common", "NULLINUM")
 	rootinum := constOfPkg(P, jrnlPath+"/common", "ROOTINUM")
+	// constant bit numbers set in some block: S[c] |= 1 << k (bit 8c+k), or S[n/8] |= 1 << (n%8) with n a constant
+	// handed to a helper / closure
 	bits := map[int64]bool{}
-	for _, b := range mark.Blocks {
-		for _, in := range b.Instrs {
-			if bo, ok := in.(*ssa.BinOp); ok && bo.Op == token.OR {
-				if k, isk := constInt(bo.Y); isk {
+	for _, sc := range scopesOf(mark) {
+		for _, b := range sc.Fn.Blocks {
+			for _, in := range b.Instrs {
+				bo, ok := in.(*ssa.BinOp)
+				if !ok || bo.Op != token.OR {
+					continue
+				}
+				if k, isk := constInt(sc.S.resolve(bo.Y)); isk {
+					idx := int64(0)
+					if ld, ok := bo.X.(*ssa.UnOp); ok {
+						if ia, ok := ld.X.(*ssa.IndexAddr); ok {
+							if i, isi := constInt(sc.S.resolve(ia.Index)); isi {
+								idx = i
+							}
+						}
+					}
 					for bit := int64(0); bit < 8; bit++ {
 						if k == 1<<uint(bit) {
-							// only stores into index 0 of a fresh block
-							bits[bit] = true
+							bits[8*idx+bit] = true
 						}
+					}
+					continue
+				}
+				if sh, ok := bo.Y.(*ssa.BinOp); ok && sh.Op == token.SHL {
+					one, is1 := constInt(sh.X)
+					rem, isR := sh.Y.(*ssa.BinOp)
+					if !is1 || one != 1 || !isR || rem.Op != token.REM {
+						continue
+					}
+					if n, isn := constInt(sc.S.resolve(rem.X)); isn {
+						bits[n] = true
 					}
 				}
 			}
@@ -646,17 +685,14 @@ func ruleK4(c *Ctx, id string) {
 		if w.Field != "NBlockBitmap" {
 			continue
 		}
+		// normal form (+ c (/ d.Size() NBITBLOCK)) with c >= 1
+		form := sym(&symCtx{}, w.Val, Subst{}, 0)
 		ok := false
-		if add, isA := stripConv(w.Val).(*ssa.BinOp); isA && add.Op == token.ADD {
-			if one, is1 := constInt(add.Y); is1 && one >= 1 {
-				if q, isQ := stripConv(add.X).(*ssa.BinOp); isQ && q.Op == token.QUO {
-					k, isk := constInt(q.Y)
-					cl, isC := stripConv(q.X).(*ssa.Call)
-					if isk && k == nbitblock && isC && cl.Call.IsInvoke() && cl.Call.Method.Name() == "Size" {
-						ok = true
-					}
-				}
-			}
+		var cst int64
+		var divisor int64
+		var inner string
+		if n, err := fmt.Sscanf(form, "(+ %d (/ %s %d))", &cst, &inner, &divisor); err == nil && n == 3 {
+			ok = cst >= 1 && divisor == nbitblock && strings.HasPrefix(inner, "invoke:Size(")
 		}
 		if ok {
 			R.PassNT(id, "super.MkFsSuper|NBlockBitmap = Size/NBITBLOCK + 1", P.Pos(w.Instr.Pos()), "bitmap capacity exceeds the disk size for every size", "form x/k + c, c >= 1, on d.Size() and NBITBLOCK")
